@@ -171,7 +171,6 @@ func mapLoopKey(p *core.Program, ml mapLoop, idx int) string {
 	return fmt.Sprintf("%s#range-map%d:%s", ml.FD.Name(), idx, types.ExprString(ml.Stmt.X))
 }
 
-
 // declaredWithin: the variable is declared inside node n (by the declaring
 // identifier's own position, which on a normalised declaration differs from
 // the object's recorded position).
